@@ -4,12 +4,21 @@ use std::panic::{catch_unwind, AssertUnwindSafe};
 
 type P = Box<dyn CachePolicy<u64, ()>>;
 
-fn make(name: &str) -> P {
+/// header token: `<policy>` or `<policy>:<capacity>` (slru, arc, tinylfu take a capacity)
+fn make(hdr: &str) -> P {
+  let (name, cap) = match hdr.split_once(':') {
+    Some((n, c)) => (n, c.parse::<u64>().unwrap()),
+    None => (hdr, 0),
+  };
   match name {
     "lru" => Box::new(fibre_cache::policy::lru::LruPolicy::<u64>::new()),
     "fifo" => Box::new(fibre_cache::policy::fifo::Fifo::<u64>::new()),
     "sieve" => Box::new(fibre_cache::policy::sieve::SievePolicy::<u64>::new()),
     "clock" => Box::new(fibre_cache::policy::clock::ClockPolicy::<u64>::new()),
+    "slru" => Box::new(fibre_cache::policy::slru::SlruPolicy::<u64>::new(cap)),
+    "arc" => Box::new(fibre_cache::policy::arc::ArcPolicy::<u64>::new(cap as usize)),
+    "tinylfu" => Box::new(fibre_cache::policy::tinylfu::TinyLfuPolicy::<u64>::new(cap)),
+    "random" => Box::new(fibre_cache::policy::random::RandomPolicy::<u64>::new()),
     _ => panic!("unknown policy {name}"),
   }
 }
